@@ -14,6 +14,7 @@ func (rt *runtime) cmplEvaluateNodeExpression(node nodeExpression) Value {
 	// we avoid runtime.Gosched() overhead (if any)
 	// FIXME: Test this
 	if rt.otto.Interrupt != nil {
+		rt.verifStep(2)
 		goruntime.Gosched()
 		select {
 		case value := <-rt.otto.Interrupt:
